@@ -17,7 +17,7 @@
      - the children of And / Or nodes draw from consecutive, disjoint parts of the stream (independent).
    Outside this model: Pcg32, the f64 weights child_count / parent_count * amount, rand_distr. *)
 From Coq Require Import List ZArith QArith Bool.
-From DD Require Import Model.Circuit Model.Query Model.Enumerate Proofs.C07Defs Proofs.C07IdealDefs.
+From DD Require Import Model.Circuit Model.Query Model.Enumerate Proofs.Live Proofs.C07Defs Proofs.C07IdealDefs.
 Import ListNotations.
 
 (* ---------- finite distributions over Q ---------- *)
@@ -116,10 +116,12 @@ Definition split_ideal (ts : list Z) (cs : list nat) (ti a : Z) (L : dist (list 
      (expect L (fun v => inject_Z (nth k v 0%Z))
       == inject_Z a * inject_Z (nth (nth k cs 0%nat) ts 0%Z) / inject_Z ti)%Q).
 
-(* every Or node that can be reached (temp <> 0) with a positive amount draws from an ideal law *)
+(* every Or node that can be reached (reachable in the sense of Proofs/Live.v, temp <> 0) with a
+   positive amount draws from an ideal law; inside a dead branch the temps may be stale and the
+   sampler never gets there *)
 Definition splits_ideal (C : circuit) (ts : list Z) (SL : nat -> Z -> dist (list Z)) : Prop :=
   forall i cs a, (i < length C)%nat -> nth i C FalseN = Or cs -> (1 <= a)%Z -> nth i ts 0%Z <> 0%Z ->
-    split_ideal ts cs (nth i ts 0%Z) a (SL i a).
+    Reach C i -> split_ideal ts cs (nth i ts 0%Z) a (SL i a).
 
 (* executable form of split_ideal, for the examples *)
 Definition split_idealb (ts : list Z) (cs : list nat) (ti a : Z) (L : dist (list Z)) : bool :=
